@@ -95,6 +95,18 @@ def apply_tamper(W, name, rng):
         po.tx_out.script_pubkey = spk
         ps.tx_obj.tx_outs[1].script_pubkey = spk
         outs[1]["spk"] = {"m": m, "keys": [[0, "atk"]] + [[c, "chg"] for c in range(2, n + 1)]}
+    elif name.startswith("swap-spk-"):
+        # the change output's scriptPubKey is replaced by an attacker's script of ANOTHER type; all change metadata is kept
+        from buidl.script import P2PKHScriptPubKey, P2WPKHScriptPubKey, P2SHScriptPubKey, P2WSHScriptPubKey, P2TRScriptPubKey
+        h20 = atk.hash160()
+        typ = name[len("swap-spk-"):]
+        spk = {"p2pkh": lambda: P2PKHScriptPubKey(h20), "p2wpkh": lambda: P2WPKHScriptPubKey(h20),
+               "p2sh": lambda: P2SHScriptPubKey(bytes(rng.randrange(256) for _ in range(20))),
+               "p2wsh": lambda: P2WSHScriptPubKey(bytes(rng.randrange(256) for _ in range(32))),
+               "p2tr": lambda: P2TRScriptPubKey(atk.private_key.point)}[typ]()
+        po.tx_out.script_pubkey = spk
+        ps.tx_obj.tx_outs[1].script_pubkey = spk
+        outs[1]["spk"] = {"m": 1, "keys": [[0, "atk"]]}
     elif name in ("foreign-script", "foreign-script-named"):
         atk_nm = W["named"](atk, "m/0/0")
         sc, spk = W["script_for"]([atk_nm] + [W["named"](r, "%s/1/4" % base) for r in roots[1:]], m)
@@ -135,16 +147,23 @@ def apply_tamper(W, name, rng):
         po.tx_out.script_pubkey = spk
         ps.tx_obj.tx_outs[1].script_pubkey = spk
         outs[1]["spk"]["m"] = m - 1
-    elif name == "second-change":
+    elif name in ("second-change", "second-change-first", "second-change-middle"):
+        # a second real change output, after / before / between the honest outputs (if it is summarised at all, the sums must hold)
         nms = [W["named"](r, "%s/1/9" % base) for r in roots]
         sc, spk = W["script_for"](nms, m)
         to = TxOut(1000, spk)
-        ps.tx_obj.tx_outs.append(to)
+        at = {"second-change": len(ps.tx_obj.tx_outs), "second-change-first": 0, "second-change-middle": 1}[name]
+        ps.tx_obj.tx_outs.insert(at, to)
         po2 = PSBTOut(to)
         set_script(po2, sc)
         po2.named_pubs = {x.sec(): x.point for x in nms}
-        ps.psbt_outs.append(po2)
-        outs.append({"spk": {"m": m, "keys": [[c, "chg"] for c in range(1, n + 1)]}, "named": [{"key": [c, "chg"], "xfp": c, "path": "chg"} for c in range(1, n + 1)]})
+        ps.psbt_outs.insert(at, po2)
+        outs.insert(at, {"spk": {"m": m, "keys": [[c, "chg"] for c in range(1, n + 1)]}, "named": [{"key": [c, "chg"], "xfp": c, "path": "chg"} for c in range(1, n + 1)]})
+        if name == "second-change-first":
+            # also put the honest change in front of the spend: [change2, change, spend]
+            ps.tx_obj.tx_outs[1], ps.tx_obj.tx_outs[2] = ps.tx_obj.tx_outs[2], ps.tx_obj.tx_outs[1]
+            ps.psbt_outs[1], ps.psbt_outs[2] = ps.psbt_outs[2], ps.psbt_outs[1]
+            outs[1], outs[2] = outs[2], outs[1]
     elif name == "spend-as-change":
         # the spend output is dressed up with the honest change metadata
         p0 = ps.psbt_outs[0]
@@ -190,7 +209,7 @@ def apply_tamper(W, name, rng):
     return outs, ok_inputs
 
 
-TAMPERS = ["none", "swap-spk", "foreign-script", "foreign-script-named", "one-cosigner", "wrong-path", "foreign-xfp", "change-quorum", "second-change",
+TAMPERS = ["none", "swap-spk", "swap-spk-p2pkh", "swap-spk-p2wpkh", "swap-spk-p2sh", "swap-spk-p2wsh", "swap-spk-p2tr", "second-change-first", "second-change-middle", "foreign-script", "foreign-script-named", "one-cosigner", "wrong-path", "foreign-xfp", "change-quorum", "second-change",
            "spend-as-change", "input-foreign-script", "input-wrong-derivation", "input-foreign-xfp", "input-altered-prev-tx", "input-quorum-mismatch"]
 
 
